@@ -30,6 +30,7 @@
                      min(previous * Num/Den, Max); successes untouched
      Retry           (Retry.tla) re-invokes while the error persists, at most cfg.retries times
      Duplicator      invokes the handler twice (idempotency testing aid); outputs concatenated
+     RandomFail / RandomPanic   with probability 1: error "random fail occurred" / panic, the handler is not invoked
 
    LegacyTimeout = TRUE models the defect D8 (the context stays cancelled after
    Timeout, Retry then gives up at once); TLC must reject it.                   *)
@@ -87,6 +88,9 @@ Run(ch, i, st, sc, cfg) ==
                   IF Panicked(y.res) THEN y
                   ELSE IF Failed(y.res) THEN [res |-> [outs |-> << >>, err |-> y.res.err, panic |-> "none"], st |-> y.st]
                   ELSE [res |-> [outs |-> x.res.outs \o y.res.outs, err |-> "nil", panic |-> "none"], st |-> y.st]
+        \* RandomFail(1) / RandomPanic(1): with probability 1 the handler is never reached (beyond C19)
+        [] m = "RandomFail" -> [res |-> [outs |-> << >>, err |-> "rf", panic |-> "none"], st |-> st]
+        [] m = "RandomPanic" -> [res |-> [outs |-> << >>, err |-> "nil", panic |-> "rp"], st |-> st]
         [] m = "Retry" ->
              LET x == Run(ch, i + 1, st, sc, cfg) IN
              IF ~Failed(x.res) THEN x
